@@ -150,12 +150,24 @@ pub fn crypto_pwhash(
 
 #[cfg(any(feature = "base64", all(doc, not(doctest))))]
 #[cfg_attr(all(feature = "nightly", doc), doc(cfg(feature = "base64")))]
-pub(crate) fn pwhash_to_string(t_cost: u32, m_cost: u32, salt: &[u8], hash: &[u8]) -> String {
+pub(crate) fn pwhash_to_string(
+    algorithm: &PasswordHashAlgorithm,
+    t_cost: u32,
+    m_cost: u32,
+    salt: &[u8],
+    hash: &[u8],
+) -> String {
     use base64::Engine as _;
     use base64::engine::general_purpose;
 
+    let prefix = match algorithm {
+        PasswordHashAlgorithm::Argon2i13 => CRYPTO_PWHASH_ARGON2I_STRPREFIX,
+        PasswordHashAlgorithm::Argon2id13 => CRYPTO_PWHASH_ARGON2ID_STRPREFIX,
+    };
+
     format!(
-        "$argon2id$v={}$m={},t={},p=1${}${}",
+        "{}v={}$m={},t={},p=1${}${}",
+        prefix,
         argon2::ARGON2_VERSION_NUMBER,
         m_cost,
         t_cost,
@@ -209,7 +221,13 @@ pub fn crypto_pwhash_str(password: &[u8], opslimit: u64, memlimit: usize) -> Res
         argon2::Argon2Type::Argon2id,
     )?;
 
-    let pw = pwhash_to_string(t_cost, m_cost, &salt, &hash);
+    let pw = pwhash_to_string(
+        &PasswordHashAlgorithm::Argon2id13,
+        t_cost,
+        m_cost,
+        &salt,
+        &hash,
+    );
 
     Ok(pw)
 }
